@@ -103,44 +103,36 @@ def run(ctx):
     # Z4
     data = F.adt("uci::Data")
     fields = [f["name"] for f in data["variants"][0]["fields"]]
-    nf = F.fn("uci::command_ucinewgame")
-    env = hir.Env(nf["hir"], F)
-    sym = hir.Sym(env, F)
+    from . import p14
+    nf, arm, sym = p14.command_arm(F, "ucinewgame", ["uci::command_ucinewgame"])
     reset = {}
-    for st in hir.strip(nf["hir"]["body"]).get("stmts") or []:
-        s0 = hir.strip(st)
-        if s0.get("k") == "Assign":
-            l = hir.strip(s0["l"])
-            if l.get("k") == "Field" and sym(l["e"]) == ("var", "data"):
-                reset[l["name"]] = "= " + hir.fmt(sym(s0["r"]), 60)
-        if s0.get("k") == "MethodCall" and s0["name"] in ("clear",):
-            r = hir.strip(s0["recv"])
-            if r.get("k") == "Field" and sym(r["e"]) == ("var", "data"):
-                reset[r["name"]] = ".clear()"
-    tail = hir.strip(nf["hir"]["body"]).get("expr")
-    if tail is not None:
-        s0 = hir.strip(tail)
-        if s0.get("k") == "Assign":
-            l = hir.strip(s0["l"])
-            if l.get("k") == "Field":
-                reset[l["name"]] = "= " + hir.fmt(sym(s0["r"]), 60)
+    conditional = []
+    if arm is not None:
+        for n, anc in hir.walk(arm):
+            tgt = None
+            if n.get("k") == "Assign":
+                l = hir.strip(n["l"])
+                if l.get("k") == "Field" and hir.strip(l["e"]).get("ty", "").replace("&mut ", "").endswith(("uci::Data", "MutexGuard<'_, uci::Data>")) or \
+                        (l.get("k") == "Field" and sym(l["e"]) == ("var", "data")):
+                    tgt = (l["name"], "= " + hir.fmt(sym(n["r"]), 60))
+            if n.get("k") == "MethodCall" and n["name"] in ("clear",):
+                r = hir.strip(n["recv"])
+                if r.get("k") == "Field" and (sym(r["e"]) == ("var", "data") or "uci::Data" in hir.strip(r["e"]).get("ty", "")):
+                    tgt = (r["name"], ".clear()")
+            if tgt:
+                # unconditional inside the arm: no if / match / loop between the arm and the statement
+                inner = [a for a in anc if a.get("k") in ("If", "Match", "Loop") and not a.get("mac")]
+                if inner:
+                    conditional.append(tgt[0])
+                else:
+                    reset[tgt[0]] = tgt[1]
     for f in fields:
-        ctx.check("C19.Z4", "ucinewgame-resets:%s" % f, f in reset, fn="uci::command_ucinewgame", file=nf["file"],
+        ctx.check("C19.Z4", "ucinewgame-resets:%s" % f, f in reset, fn="uci::uci_talk", file=nf["file"],
                   what="a field of the session state survives `ucinewgame`: searches after the reset depend on what was searched before",
-                  expected="Data.%s assigned or cleared unconditionally" % f, found=reset)
+                  expected="Data.%s assigned or cleared unconditionally in the `ucinewgame` arm" % f, found={"reset": reset, "only conditionally": conditional})
     ctx.floor("C19.Z4", "fields of uci::Data", len(fields), 2)
-    # ucinewgame arm calls it unconditionally (after stopping a running search)
-    talk = F.fn("uci::uci_talk")
-    tsym = hir.Sym(hir.Env(talk["hir"], F), F)
-    okc = False
-    for c, anc in hir.calls(talk["hir"]["body"], "uci::command_ucinewgame"):
-        g_all = hir.guards_of(c, talk["hir"]["body"], tsym) or []
-        # only conditions inside the "ucinewgame" arm count
-        idx = [i for i, x in enumerate(g_all) if x[0] == "arm" and x[2] == ("lit", "ucinewgame")]
-        g2 = [x for x in g_all[idx[0] + 1:] if x[0] == "if"] if idx else [("no-arm",)]
-        okc = not g2
-    ctx.check("C19.Z4", "ucinewgame-always-resets", okc, fn="uci::uci_talk", file=talk["file"],
-              what="the reset must not be conditional", found=okc)
+    ctx.check("C19.Z4", "ucinewgame-always-resets", arm is not None and not conditional, fn="uci::uci_talk", file=nf["file"],
+              what="the reset must not be conditional", found={"arm found": arm is not None, "conditional": conditional})
     # Z5
     drv = F.fn("search::get_best_move_until_stop")
     want_inputs = ["&chess::Game", "&mut std::collections::HashMap<u64, search::TableEntry", "&std::sync::atomic::Atomic<bool>", "std::option::Option<u8>"]
